@@ -400,6 +400,16 @@ impl ContextStatistics {
     }
 }
 
+#[cfg(redproxy_verif)]
+impl ContextStatistics {
+    // verification hook: place last_read relative to the wall clock
+    pub fn verif_shift_last_read(&self, delta_ms: i64) {
+        let now = SystemTime::now().unix_timestamp() as i64;
+        self.last_read
+            .store((now + delta_ms) as u64, Ordering::Relaxed)
+    }
+}
+
 #[cfg(feature = "metrics")]
 lazy_static::lazy_static! {
     static ref CONTEXT_STATUS: prometheus::HistogramVec = prometheus::register_histogram_vec!(
